@@ -114,7 +114,7 @@ def run_variant(repo, world, variant, deadline_s=None):
     ex.witness_fn = lambda m: variant.witness(m, ex)
     res = {"variant": variant.name, "qualname": variant.qualname, "props": list(variant.prop_ids),
            "paths": 0, "aborted": {}, "unsupported": None, "obligations": [], "bounded": variant.bounded,
-           "inlined": set(), "contracts_used": set(), "notes": set()}
+           "inlined": set(), "contracts_used": set(), "notes": set(), "replay_kind": getattr(variant, "replay_kind", None)}
     npaths = 0
     while True:
         ex.reset_path()
@@ -173,6 +173,9 @@ def run_variant(repo, world, variant, deadline_s=None):
         if deadline_s is not None and time.time() - t0 > deadline_s:
             res["unsupported"] = "time budget of %ds exceeded after %d paths" % (deadline_s, npaths)
             break
+    if npaths == 0 and not res["unsupported"] and not res["obligations"]:
+        # vacuity guard per variant: no path reached the check (every path was cut or infeasible) - nothing was decided
+        res["unsupported"] = "no feasible path reached the function under contract (cut: %s)" % (dict(res["aborted"]) or "none")
     res["paths"] = npaths
     res["seconds"] = round(time.time() - t0, 3)
     for k in ("inlined", "contracts_used", "notes"):
